@@ -24,18 +24,27 @@
                        RST_STREAM / connection loss / deadline; client task cancelled); asyncio.Queue.get
                        leaves the queue untouched in that case
      Release sid       release_stream() is called (server: `finally` of request_handler AND the task's
-                       done-callback; client: Stream.__aexit__) -- every call, also the repeated ones
+                       done-callback; client: Stream.__aexit__) -- every call, also the repeated ones.
+                       The Buffer object outlives the registration (the Stream object still holds it): a
+                       released buffer stays in the model's table, flagged `brel`, and Read / Wake / Cancel
+                       keep working on it (a reader task left running after the `async with` block, a
+                       recv_message() after the block, a handler-spawned reader) -- "read after release".
      Close             connection.is_closing() becomes true (transport closing / Connection.close())
+     Pause / Resume    transport.pause_writing() / resume_writing(): Connection.write_ready is cleared / set.
+                       NO credit path consults write_ready (Connection.ack acknowledges and flushes at once),
+                       so both are identity steps; they are in the alphabet so that the theorems quantify
+                       over histories with pauses at any point.
 
    "stream reset by the peer" on the server is  Cancel sid (if the handler is blocked in a read) followed by
    Release sid (done-callback; plus the `finally` one if the coroutine had started); "handler task
    cancelled before its first step" is just  Release sid  with no Read before it; "client leaves the context"
-   is  Release sid ; the theorems quantify over ALL interleavings of these primitive events.
+   is  Release sid  (possibly followed by more Read events on the released buffer); the theorems quantify over ALL interleavings of these primitive events.
 
    OUTPUTS are what crosses the h2 API boundary (and two ghost markers):
      ORecv sid k   k flow-controlled bytes were received for sid          (DataReceived)
      OAck sid k    H2Connection.acknowledge_received_data(k, sid), k <> 0 (Connection.ack skips size 0)
-     ODrop sid k   ghost: release on a closing connection forfeits k queued credit (no call is made)
+     ODrop sid k   ghost: release on a closing connection leaves k queued credit un-acknowledged (no call is
+                   made; the items stay in the released buffer, see `forfeited`)
      OBlock sid    ghost: Buffer.read is now suspended on the empty queue
      ORead sid r   Buffer.read finished with result r
 *)
@@ -54,9 +63,10 @@ Record buf := mkBuf {
   bq : list item;          (* _unacked (FIFO) *)
   backed : Z;              (* _acked_size *)
   beof : bool;             (* _eof *)
-  bpend : option Z         (* Some size: a read(size) is suspended in `await self._unacked.get()` *)
+  bpend : option Z;        (* Some size: a read(size) is suspended in `await self._unacked.get()` *)
+  brel : bool              (* ghost: release_stream has popped this stream from EventsProcessor.streams *)
 }.
-Definition new_buf : buf := mkBuf [] 0 false None.
+Definition new_buf : buf := mkBuf [] 0 false None false.
 
 Definition qsum (q : list item) : Z := fold_right (fun it a => it_ack it + a) 0 q.
 Definition lsum (q : list item) : Z := fold_right (fun it a => it_len it + a) 0 q.
@@ -67,10 +77,10 @@ Definition fcl (n : Z) (pad : option Z) : Z :=
 
 (* Buffer.add: `if not ack_size: return` *)
 Definition buf_add (b : buf) (n f : Z) : buf :=
-  if f =? 0 then b else mkBuf (bq b ++ [mkItem n f]) (backed b) (beof b) (bpend b).
+  if f =? 0 then b else mkBuf (bq b ++ [mkItem n f]) (backed b) (beof b) (bpend b) (brel b).
 
 (* Buffer.eof *)
-Definition buf_eof (b : buf) : buf := mkBuf (bq b ++ [eof_marker]) (backed b) true (bpend b).
+Definition buf_eof (b : buf) : buf := mkBuf (bq b ++ [eof_marker]) (backed b) true (bpend b) (brel b).
 
 Inductive pstat := PEnough | PBreak | PBlocked.
 
@@ -97,17 +107,17 @@ Definition ack_out (sid k : Z) : list out := if k =? 0 then [] else [OAck sid k]
 Definition acks_of (sid : Z) (p : list item) : list out := flat_map (fun it => ack_out sid (it_ack it)) p.
 
 (* the part of Buffer.read after the loop *)
-Definition finish (q : list item) (acked : Z) (eof : bool) (size : Z) : buf * rres :=
-  if eof && (acked =? 0) then (mkBuf q acked eof None, REof)
-  else if acked <? size then (mkBuf q acked eof None, RAssert)     (* 'Received less data than expected' *)
-  else (mkBuf q (acked - size) eof None, RData).
+Definition finish (q : list item) (acked : Z) (eof rel : bool) (size : Z) : buf * rres :=
+  if eof && (acked =? 0) then (mkBuf q acked eof None rel, REof)
+  else if acked <? size then (mkBuf q acked eof None rel, RAssert) (* 'Received less data than expected' *)
+  else (mkBuf q (acked - size) eof None rel, RData).
 
 (* run the loop (from a fresh read or after a wake-up) and what follows it *)
 Definition read_loop (sid : Z) (b : buf) (size : Z) : buf * list out :=
   let '(p, r, a, st) := pump (bq b) (backed b) size in
   match st with
-  | PBlocked => (mkBuf r a (beof b) (Some size), acks_of sid p ++ [OBlock sid])
-  | _ => let '(b', res) := finish r a (beof b) size in (b', acks_of sid p ++ [ORead sid res])
+  | PBlocked => (mkBuf r a (beof b) (Some size) (brel b), acks_of sid p ++ [OBlock sid])
+  | _ => let '(b', res) := finish r a (beof b) (brel b) size in (b', acks_of sid p ++ [ORead sid res])
   end.
 
 Definition is_nil {A} (l : list A) : bool := match l with [] => true | _ => false end.
@@ -120,7 +130,7 @@ Definition buf_read (sid : Z) (b : buf) (size : Z) : buf * list out :=
     if size <? 0 then (b, [ORead sid RBadSize])           (* assert size >= 0 *)
     else if size =? 0 then (b, [ORead sid REmpty])        (* return b'' *)
     else if beof b && is_nil (bq b)                       (* `if not self._eof or not self._unacked.empty()` false *)
-    then let '(b', res) := finish (bq b) (backed b) (beof b) size in (b', [ORead sid res])
+    then let '(b', res) := finish (bq b) (backed b) (beof b) (brel b) size in (b', [ORead sid res])
     else read_loop sid b size
   end.
 
@@ -131,10 +141,16 @@ Definition buf_wake (sid : Z) (b : buf) : buf * list out :=
   | Some size => if is_nil (bq b) then (b, []) else read_loop sid b size
   end.
 
-Definition buf_cancel (b : buf) : buf := mkBuf (bq b) (backed b) (beof b) None.
+Definition buf_cancel (b : buf) : buf := mkBuf (bq b) (backed b) (beof b) None (brel b).
+
+(* release_stream: on a live connection buffer.unacked_size() DRAINS the queue (get_nowait per item) and the sum
+   is acknowledged; on a closing connection unacked_size() is not even evaluated, the queue stays as it is *)
+Definition buf_release (closing : bool) (b : buf) : buf :=
+  mkBuf (if closing then bq b else []) (backed b) (beof b) (bpend b) true.
 
 (* ---- registry and connection ------------------------------------------------------------------ *)
 
+(* every Buffer ever created, by stream id; EventsProcessor.streams = the entries with brel = false *)
 Definition registry := list (Z * buf).
 
 Fixpoint lookup (sid : Z) (r : registry) : option buf :=
@@ -145,12 +161,22 @@ Fixpoint lookup (sid : Z) (r : registry) : option buf :=
 Definition remove (sid : Z) (r : registry) : registry := filter (fun p => negb (fst p =? sid)) r.
 Definition set (sid : Z) (b : buf) (r : registry) : registry := (sid, b) :: remove sid r.
 
+(* EventsProcessor.streams.get(sid) *)
+Definition lookup_live (sid : Z) (r : registry) : option buf :=
+  match lookup sid r with Some b => if brel b then None else Some b | None => None end.
+
 Record st := mkSt { reg : registry; closing : bool }.
 Definition init : st := mkSt [] false.
 
 Inductive event :=
 | Open (sid : Z) | Data (sid n : Z) (pad : option Z) | EndStream (sid : Z)
-| Read (sid size : Z) | Wake (sid : Z) | Cancel (sid : Z) | Release (sid : Z) | Close.
+| Read (sid size : Z) | Wake (sid : Z) | Cancel (sid : Z) | Release (sid : Z) | Close | Pause | Resume.
+
+Definition with_live_buf (s : st) (sid : Z) (f : buf -> buf * list out) (dflt : list out) : st * list out :=
+  match lookup_live sid (reg s) with
+  | None => (s, dflt)
+  | Some b => let '(b', o) := f b in (mkSt (set sid b' (reg s)) (closing s), o)
+  end.
 
 Definition with_buf (s : st) (sid : Z) (f : buf -> buf * list out) (dflt : list out) : st * list out :=
   match lookup sid (reg s) with
@@ -163,23 +189,23 @@ Definition step (s : st) (e : event) : st * list out :=
   | Open sid => (mkSt (set sid new_buf (reg s)) (closing s), [])
   | Data sid n pad =>
     let f := fcl n pad in
-    match lookup sid (reg s) with
+    match lookup_live sid (reg s) with
     | Some b => (mkSt (set sid (buf_add b n f) (reg s)) (closing s), [ORecv sid f])
     | None => (s, ORecv sid f :: ack_out sid f)            (* unknown / finished stream: immediate ack *)
     end
-  | EndStream sid => with_buf s sid (fun b => (buf_eof b, [])) []
+  | EndStream sid => with_live_buf s sid (fun b => (buf_eof b, [])) []
   | Read sid size => with_buf s sid (fun b => buf_read sid b size) [ORead sid RNoStream]
   | Wake sid => with_buf s sid (buf_wake sid) []
   | Cancel sid => with_buf s sid (fun b => (buf_cancel b, [])) []
   | Release sid =>
-    match lookup sid (reg s) with
-    | None => (s, [])                                      (* already released *)
-    | Some b =>
-      (mkSt (remove sid (reg s)) (closing s),
-       if closing s then [ODrop sid (qsum (bq b))]         (* `if not self.connection.is_closing()` *)
-       else ack_out sid (qsum (bq b)))                     (* connection.ack(sid, buffer.unacked_size()) *)
-    end
+    with_live_buf s sid                                    (* None: already released *)
+      (fun b => (buf_release (closing s) b,
+                 if closing s then [ODrop sid (qsum (bq b))]   (* `if not self.connection.is_closing()` *)
+                 else ack_out sid (qsum (bq b))))              (* connection.ack(sid, buffer.unacked_size()) *)
+      []
   | Close => (mkSt (reg s) true, [])
+  | Pause => (s, [])                                       (* write_ready.clear(): no credit path reads it *)
+  | Resume => (s, [])                                      (* write_ready.set() + flush of what h2 queued *)
   end.
 
 Fixpoint run (s : st) (h : list event) : st * list out :=
@@ -205,9 +231,18 @@ Definition received_conn := total recvA.            (* connection level: h2 cred
 Definition credited_conn := total credA.
 Definition dropped_conn := total dropA.
 
-(* credit still owed for data sitting in REGISTERED buffers *)
-Definition held (x : Z) (s : st) : Z := match lookup x (reg s) with Some b => qsum (bq b) | None => 0 end.
-Definition held_conn (s : st) : Z := fold_right (fun p a => qsum (bq (snd p)) + a) 0 (reg s).
+(* credit of everything still queued in a buffer, registered or released *)
+Definition queued (x : Z) (s : st) : Z := match lookup x (reg s) with Some b => qsum (bq b) | None => 0 end.
+Definition queued_conn (s : st) : Z := fold_right (fun p a => qsum (bq (snd p)) + a) 0 (reg s).
+(* credit still owed for data sitting in REGISTERED buffers ... *)
+Definition held (x : Z) (s : st) : Z := match lookup_live x (reg s) with Some b => qsum (bq b) | None => 0 end.
+Definition held_conn (s : st) : Z :=
+  fold_right (fun p a => (if brel (snd p) then 0 else qsum (bq (snd p))) + a) 0 (reg s).
+(* ... and credit left in RELEASED buffers (only a release on a closing connection leaves any) *)
+Definition forfeited (x : Z) (s : st) : Z :=
+  match lookup x (reg s) with Some b => if brel b then qsum (bq b) else 0 | None => 0 end.
+Definition forfeited_conn (s : st) : Z :=
+  fold_right (fun p a => (if brel (snd p) then qsum (bq (snd p)) else 0) + a) 0 (reg s).
 
 (* ---- well-formedness of histories ------------------------------------------------------------- *)
 
@@ -219,7 +254,7 @@ Definition event_ok (e : event) : bool :=
   | _ => true
   end.
 
-(* `Open sid` only for an id that is not registered at that moment (h2 never repeats a stream id) *)
+(* `Open sid` only for an id that has not been used before (h2 never repeats a stream id) *)
 Fixpoint legal (s : st) (h : list event) : bool :=
   match h with
   | [] => true
